@@ -125,4 +125,15 @@ example : accepts "a\\nb \\u00e9 \\\" x".toList = true := by decide
 example : accepts "a\\qb".toList = false := by decide
 example : escape ['a', '\n', '"', Char.ofNat 1] = "a\\n\\\"\\u0001".toList := by decide
 
+/-- a multi-line string literal (every line: blanks, the `\\` marker, raw content) denotes its
+contents joined by line feeds; nothing inside is an escape -/
+theorem multiline_fidelity (ls : List (List Char × List Char)) (hne : ls ≠ [])
+    (hok : ∀ p, p ∈ ls → LineOK p) :
+    lowerMultiline (spellLines ls) = some (joinLines (ls.map (·.2))) :=
+  lowerMultiline_spell ls hne hok
+
+example : LineOK ("    ".toList, "a\\nb \"q\"".toList) := by
+  refine ⟨by decide, by decide, by decide⟩
+example : lowerMultiline "\\\\first\n      \\\\a\\nb".toList = some "first\na\\nb".toList := by decide
+
 end Goml.Props.C11
